@@ -788,6 +788,8 @@ def run_behaviour(ctx, helper, C16, only=None):
     occ_idx = [i for i, c in enumerate(cases) if c["occ"]["var"] != "same"]
     occ_fired = collections.Counter(cases[i]["occ"]["var"] for i in occ_idx if per_func[i])
     occ_all = collections.Counter(cases[i]["occ"]["var"] for i in occ_idx)
+    occ_diff_by_var = collections.Counter(cases[int(t["id"].split("#")[0])]["occ"]["var"] for t in tables
+                                          if not verdicts[t["id"]]["preserved"] and cases[int(t["id"].split("#")[0])]["occ"]["var"] != "same")
     occ_diff = sorted({"%s %s" % (cases[int(t["id"].split("#")[0])]["shape"], occ_name(cases[int(t["id"].split("#")[0])]))
                        for t in tables if not verdicts[t["id"]]["preserved"] and cases[int(t["id"].split("#")[0])]["occ"]["var"] != "same"})
     sample_t = tables[len(tables) // 2]
@@ -802,7 +804,8 @@ def run_behaviour(ctx, helper, C16, only=None):
             "triples_shape_mv_variation": len({(cases[i]["shape"], cases[i]["occ"]["mv"], cases[i]["occ"]["var"]) for i in occ_idx}),
             "cases_by_variation": dict(sorted(occ_all.items())),
             "cases_where_the_check_still_fired_by_variation": dict(sorted(occ_fired.items())),
-            "variation_cases_with_behaviour_difference": occ_diff[:40],
+            "differing_tables_by_variation": dict(sorted(occ_diff_by_var.items())),
+            "variation_cases_with_behaviour_difference": occ_diff[:200],
         }, "shapes_with_fix_offered": dict(sorted(offered.items())),
         "shapes_never_offered_a_fix": sorted(set(TEMPLATES) - set(offered)),
         "generated_package_diagnostics": stats["diagnostics"], "generated_package_fixes": stats["fixes"],
